@@ -1,10 +1,158 @@
 /-
 C05 — BeforeFirst / ResetPartition at any point equal a fresh split.
-Property theorems only; definitions in DmlcModel/Split/{Model,Spec}.lean, lemmas in DmlcModel/Split/*Lemmas.lean.
+Property theorems only; definitions in DmlcModel/Split/{Model,Spec}.lean (`step`, `drain`, `mkSt`, `Clean`,
+`WrapEquiv`, `partBlobs`, `linesOf`, `rangeStream`), `bndT` in DmlcModel/Split/SnapText.lean, `SeekOk` in
+DmlcModel/Split/SnapLemmas.lean, `ExtractNoneIff` in DmlcModel/Split/CleanLemmas.lean; lemmas in
+DmlcModel/Split/*.lean, assembled in DmlcModel/Split/CoverReset.lean.
+
+Reading guide.  `s` is the object (`St`: the `InputSplitBase` state, bare or behind `SingleThreadedInputSplit`)
+at ANY point of ANY history: nothing is assumed about `s` beyond what each theorem lists (no reachability, no
+invariant).  `step F s op = (s', .done)` says that the call returned normally.  `(drain F pick s').2` is the
+outcome of consuming `s'` to the end with `NextRecord` (`pick i = true`) / `NextChunk` chosen per call: the
+list of blobs, or the abnormal outcome.  `ExtractNoneIff F` ("ExtractNextRecord returns false exactly on an
+exhausted chunk") holds for both formats: `extractNoneIff_text`, `extractNoneIff_recordio`.
+All of this is about the source tree with fix C05-1 (the early returns for an empty part drop the buffered
+chunk and the carry-over): on the unrepaired tree the lemma layer does not build and the statements are false
+(witness: Props/C05Witness.lean, defect F1).
 -/
-import DmlcModel.Split.Spec
+import DmlcModel.Split.CoverReset
 
 namespace DmlcModel.Props.C05
 open DmlcModel DmlcModel.Split
+
+/-- `BeforeFirst` establishes a clean state (nothing buffered, read position at the start of the part) from
+ANY state and keeps the file list, the byte range and the buffer size.  `hlt`: the start offset of a
+non-empty part is a `size_t` value (the model's offsets are unbounded naturals). -/
+theorem C05_beforeFirst_clean (s s' : Base) (h : beforeFirst s = .ok s')
+    (hlt : s.offBegin < s.offEnd → s.offBegin < 2^64) :
+    Clean s' ∧ s'.files = s.files ∧ s'.offBegin = s.offBegin ∧ s'.offEnd = s.offEnd ∧
+      s'.bufWords = s.bufWords := by
+  obtain ⟨h1, h2, h3, h4, h5, _⟩ := beforeFirst_clean s s' h hlt
+  exact ⟨h1, h2, h3, h4, h5⟩
+
+/-- `ResetPartition(k, n)` establishes a clean state from ANY state, for ANY `(k, n)` — also `k ≥ n`, and
+parts that are or become empty — and keeps the file list and the buffer size.  `SeekOk F` (SeekRecordBegin
+stays inside its file; `seekOk_text`) and `ht` keep the new start offset a `size_t` value. -/
+theorem C05_reset_clean (F : Fmt) (hS : SeekOk F) (s s' : Base) (k n : Nat)
+    (ht : totalSize s.files < 2^63) (h : resetPartition F s k n = .ok s') :
+    Clean s' ∧ s'.files = s.files ∧ s'.bufWords = s.bufWords := by
+  obtain ⟨h1, h2, h3, _⟩ := reset_clean F hS s s' k n ht h
+  exact ⟨h1, h2, h3⟩
+
+/-- the same for any record format, with the `size_t` range of the new start offset as a hypothesis -/
+theorem C05_reset_clean_gen (F : Fmt) (s s' : Base) (k n : Nat) (h : resetPartition F s k n = .ok s')
+    (hlt : s'.offBegin < s'.offEnd → s'.offBegin < 2^64) :
+    Clean s' ∧ s'.files = s.files ∧ s'.bufWords = s.bufWords := by
+  obtain ⟨h1, h2, h3, _⟩ := resetPartition_clean F s s' k n h hlt
+  exact ⟨h1, h2, h3⟩
+
+/-- nothing buffered survives either call (no hypothesis at all on the state, the format or `(k, n)`): the
+chunk and the carry-over of the base are empty, a wrapper holds no chunk -/
+theorem C05_nothing_stale (F : Fmt) (s s' : St) (op : Op)
+    (hop : op = .beforeFirst ∨ ∃ k n, op = .reset k n) (h : step F s op = (s', .done)) :
+    s'.base.chunk.rest = [] ∧ s'.base.overflow = [] ∧ (∀ w, s'.wrap = some w → w.chunk = none) :=
+  nothing_stale F s s' op hop h
+
+/-- MAIN (reset): after `ResetPartition(k, n)` on ANY state `s` (bare or wrapped, any `(k, n)`), every further
+consumption delivers blob for blob — and ends like — that of a fresh object `fresh` for part `k` of `n`:
+`fresh.base` is the result of `ResetPartition(k, n)` on ANY base state `b0` over the same file list with
+the same buffer size (in particular the blank state the constructor starts from), and `fresh` is wrapped iff
+`s` is, with the same wrapper buffer size and no chunk (`WrapEquiv`; e.g. `fresh.wrap = s'.wrap`). -/
+theorem C05_reset (F : Fmt) (hF : ExtractNoneIff F) (s s' : St) (k n : Nat)
+    (h : step F s (.reset k n) = (s', .done))
+    (b0 : Base) (hfiles : b0.files = s.base.files) (hbw : b0.bufWords = s.base.bufWords)
+    (fresh : St) (hfb : resetPartition F b0 k n = .ok fresh.base) (hfw : WrapEquiv s'.wrap fresh.wrap)
+    (pick : Nat → Bool) : (drain F pick s').2 = (drain F pick fresh).2 :=
+  reset_eq_fresh F hF s s' k n h b0 hfiles hbw fresh hfb hfw pick
+
+/-- MAIN (reset), against the constructor path of the model: `fresh` is literally the object `mkSt` builds for
+part `k` of `n` over `files` (`s` holds the non-empty ones) with the buffer size of `s`; any format, bare or
+wrapped (`WrapEquiv`: both bare, or both wrapped with wrapper buffer size `dw`) -/
+theorem C05_reset_mkSt (F : Fmt) (hF : ExtractNoneIff F) (s s' : St) (k n : Nat)
+    (h : step F s (.reset k n) = (s', .done))
+    (files : List Bytes) (w dw : Nat) (wrapped : Bool)
+    (hfiles : s.base.files = files.filter (fun f => !f.isEmpty)) (hw : s.base.bufWords = w)
+    (fresh : St) (hfresh : mkSt F files k n w wrapped dw = .ok fresh) (hwrap : WrapEquiv s'.wrap fresh.wrap)
+    (pick : Nat → Bool) : (drain F pick s').2 = (drain F pick fresh).2 :=
+  reset_eq_mkSt F hF s s' k n h files w dw wrapped hfiles hw fresh hfresh hwrap pick
+
+/-- history independence: `ResetPartition(k, n)` succeeds on `s` iff it does on any other object `t` over the
+same file list with the same buffer sizes (`hwrap`: both bare, or both wrapped with equal wrapper buffer
+size), and afterwards the two are indistinguishable, whatever was read or buffered before -/
+theorem C05_reset_any_two (F : Fmt) (hF : ExtractNoneIff F) (s t s' : St) (k n : Nat)
+    (hfiles : t.base.files = s.base.files) (hbw : t.base.bufWords = s.base.bufWords)
+    (hwrap : WrapEquiv (s.wrap.map fun w => { w with chunk := none }) (t.wrap.map fun w => { w with chunk := none }))
+    (h : step F s (.reset k n) = (s', .done)) :
+    ∃ t', step F t (.reset k n) = (t', .done) ∧
+      ∀ pick : Nat → Bool, (drain F pick s').2 = (drain F pick t').2 :=
+  reset_any_two F hF s t s' k n hfiles hbw hwrap h
+
+/-- MAIN (beforeFirst): after `BeforeFirst` on ANY state the object behaves as ANY clean object `t` on the same
+byte range with the same buffer sizes (`WrapEquiv`: both bare, or both wrapped with equal wrapper buffer
+size and `t`'s wrapper holding no unconsumed bytes) — in particular as the object right after its
+construction or its last `ResetPartition`, whose range it still has (`C05_range_stable`).  Exact equality of
+the outcomes of every full consumption, empty parts included. -/
+theorem C05_beforeFirst (F : Fmt) (hF : ExtractNoneIff F) (s s' : St)
+    (h : step F s .beforeFirst = (s', .done))
+    (hlt : s.base.offBegin < s.base.offEnd → s.base.offBegin < 2^64)
+    (t : St) (ht : Clean t.base) (hfiles : t.base.files = s.base.files)
+    (hb : t.base.offBegin = s.base.offBegin) (he : t.base.offEnd = s.base.offEnd)
+    (hw : t.base.bufWords = s.base.bufWords) (hwrap : WrapEquiv s'.wrap t.wrap)
+    (pick : Nat → Bool) : (drain F pick s').2 = (drain F pick t).2 :=
+  beforeFirst_eq_clean_strict F hF s s' h hlt t ht hfiles hb he hw hwrap pick
+
+/-- when the part selected by `ResetPartition` is (or becomes, after snapping) empty — or `BeforeFirst` is called
+on an empty part — nothing at all is delivered afterwards, whatever was buffered before: every consumption
+ends at once, normally, with no blob (the regression statement of defect F1) -/
+theorem C05_empty_part (F : Fmt) (hF : ExtractNoneIff F) (s s' : St) (op : Op)
+    (hop : op = .beforeFirst ∨ ∃ k n, op = .reset k n) (h : step F s op = (s', .done))
+    (he : s'.base.offEnd ≤ s'.base.offBegin) (pick : Nat → Bool) : (drain F pick s').2 = .ok [] :=
+  empty_part_exhausted F hF s s' op hop h he pick
+
+/-- the file list and the byte range are not changed by any operation other than `ResetPartition` — whatever the
+outcome, on any state, bare or wrapped — so "the current part" is well defined between two `ResetPartition`s -/
+theorem C05_range_stable (F : Fmt) (s : St) (op : Op) (hop : ∀ k n, op ≠ .reset k n) :
+    (step F s op).1.base.files = s.base.files ∧ (step F s op).1.base.offBegin = s.base.offBegin ∧
+      (step F s op).1.base.offEnd = s.base.offEnd :=
+  range_stable F s op hop
+
+/-- … nor by any history of such operations -/
+theorem C05_range_stable_history (F : Fmt) (s : St) (ops : List Op)
+    (hops : ∀ op ∈ ops, ∀ k n, op ≠ .reset k n) :
+    (ops.foldl (fun s op => (step F s op).1) s).base.files = s.base.files ∧
+      (ops.foldl (fun s op => (step F s op).1) s).base.offBegin = s.base.offBegin ∧
+      (ops.foldl (fun s op => (step F s op).1) s).base.offEnd = s.base.offEnd :=
+  range_stable_hist F ops s hops
+
+/-- TEXT: `ResetPartition(k, n)` (`k < n`) on a bare split in ANY state does not fail -/
+theorem C05_reset_text_ok (files : List Bytes) (hfiles : files ≠ []) (hne : ∀ f ∈ files, f ≠ [])
+    (ht : totalSize files < 2^62) (s : St) (hs : s.base.files = files) (k n : Nat) (hk : k < n)
+    (hn : n < 2^32) : ∃ s', step Fmt.text s (.reset k n) = (s', .done) :=
+  reset_text_ok files hfiles hne ht s hs k n hk hn
+
+/-- TEXT, any buffer size and any mix of `NextRecord` / `NextChunk`: after `ResetPartition(k, n)` (`k < n`) at
+any point of any history of a bare split, a full consumption ends normally and the canonical lines it
+delivers are exactly the lines of part `k` of `n` (cf. `C03_part_lines`); nothing read or buffered before
+the call shows up, no blob is empty -/
+theorem C05_reset_text_lines (files : List Bytes) (hne : ∀ f ∈ files, f ≠ [] ∧ NulFree f)
+    (ht : totalSize files < 2^55) (s s' : St) (hs : s.base.files = files) (hbare : s.wrap = none)
+    (hbw : s.base.bufWords < 2^56) (k n : Nat) (hk : k < n) (hn : n < 2^32)
+    (h : step Fmt.text s (.reset k n) = (s', .done)) (pick : Nat → Bool) :
+    ∃ bs s'', drain Fmt.text pick s' = (s'', .ok bs) ∧
+      bs.flatMap canon = lines (rangeStream true files (bndT files n k) (bndT files n (k + 1))) ∧
+      (∀ (i : Nat) (b : Bytes), bs[i]? = some b → b ≠ []) := by
+  obtain ⟨bs, s'', h1, h2, h3⟩ := reset_text_lines files hne ht s s' hs hbare hbw k n hk hn h pick
+  exact ⟨bs, s'', h1, h2, fun i b hb => (h3 i b hb).1⟩
+
+/-- … the same lines as a freshly constructed split for part `k` of `n` delivers with ANY buffer size `w`, any
+`kBufferSize` `dw` and any mix `pick'` of the two calls (ties C05 to `C03_buffer_independent`) -/
+theorem C05_reset_text_as_fresh (files : List Bytes) (hfiles : files ≠ [])
+    (hne : ∀ f ∈ files, f ≠ [] ∧ NulFree f)
+    (ht : totalSize files < 2^55) (s s' : St) (hs : s.base.files = files) (hbare : s.wrap = none)
+    (hbw : s.base.bufWords < 2^56) (k n : Nat) (hk : k < n) (hn : n < 2^32)
+    (h : step Fmt.text s (.reset k n) = (s', .done)) (pick : Nat → Bool)
+    (w dw : Nat) (hw : w < 2^56) (pick' : Nat → Bool) :
+    linesOf (drain Fmt.text pick s').2 = linesOf (partBlobs Fmt.text files k n w dw pick') :=
+  reset_text_lines_fresh files hfiles hne ht s s' hs hbare hbw k n hk hn h pick w dw hw pick'
 
 end DmlcModel.Props.C05
